@@ -11,10 +11,12 @@ sides."""
 
 import hashlib
 import io
+import json
 import os
 import re
 
 from simkit import world
+from simkit.sim import Violation
 
 from . import histsim, storesim
 from .histsim import DIR, FILE, LINK
@@ -41,7 +43,7 @@ COMPONENTS = {
 }
 ASSUMPTIONS = [
     "timestamps are whole seconds and timezones whole minutes (the fast-import format cannot express more)",
-    "directories holding no file or symlink are outside the comparison unless the extended (non-plain) format is used with prune_empty_dirs=False: the plain stream format has no directory entries and the importer prunes emptied directories by default",
+    "directories holding no file or symlink are outside the comparison: the plain stream format has no directory entries, the exporter deliberately skips renames of empty directories and the importer prunes emptied directories by default",
     "file ids and revision ids are not preserved by design; revisions correspond through exporter marks and the importer's id map",
     "with plain_format tags whose names git rejects are expected to be skipped, or exported under the sanitised name with rewrite_tags; tags on revisions outside the exported ancestry are not expected",
     "baseline export is only generated when every exported revision has all its parents inside the exported set (the exporter documents the other case as unsupported)",
@@ -50,7 +52,22 @@ ASSUMPTIONS = [
 
 TAG_NAMES = ["v1", "rel-1.0", "deep/name", "ümlaut", "with space", "dot..dot", "tilde~1", "end.lock", "q?mark"]
 # outcome of `git check-ref-format refs/tags/<name>` and of the exporter's documented rewriting
-GIT_INVALID = {"with space": "with_space", "dot..dot": "dot_dot", "tilde~1": "tilde_1", "end.lock": "end_lock", "q?mark": "q_mark"}
+GIT_INVALID = {"with space": "with_space", "dot..dot": "dot_dot", "tilde~1": "tilde_1", "end.lock": "end_", "q?mark": "q_mark"}
+
+
+GUARDED = {
+    # exporter: a swap a<->b is written as "R a b", "R b a"; executed in order this loses b
+    "swap": "both formats",
+    # exporter, plain format: a file or symlink whose path becomes an (empty) directory is not
+    # deleted from the stream; the importer later fails with InconsistentDelta when files are
+    # added below it
+    "plain_retype_to_dir": "plain format",
+    # exporter, plain format: the rename of a directory that has children is not written at all
+    # (children are looked up with iter_entries_by_dir(specific_files=[dir]), which yields only
+    # the directory); extended format: "R dir new" followed by "M new/child" in the same commit
+    # makes the importer add the child a second time (InconsistentDelta)
+    "rename_full_dir": "both formats",
+}
 
 
 def warm():
@@ -64,20 +81,20 @@ def warm():
     from breezy.plugins.fastimport import bzr_commit_handler, revision_store  # noqa: F401
     from simkit.sim import Sim
 
-    def dry():
+    def dry(i, plain):
         import random
 
-        for i, plain in enumerate((True, False)):
-            rng = random.Random(5 + i)
-            plan = generate(rng, "quick")
-            plan["cfg"]["plain"] = plain
-            sim = Sim(0, plan, step_cap=STEP_CAP)
-            try:
-                execute(sim, plan)
-            except Exception:  # noqa: BLE001 - warm-up only
-                pass
+        rng = random.Random(5 + i)
+        plan = generate(rng, "quick")
+        plan["cfg"].update(plain=plain, with_tree=True, marks=True)
+        sim = Sim(0, plan, step_cap=STEP_CAP)
+        try:
+            execute(sim, plan)
+        except Violation:
+            pass
 
-    histsim.warm_scratch(dry)
+    for i, plain in enumerate((True, False)):
+        histsim.warm_scratch(lambda i=i, plain=plain: dry(i, plain))
     world.reset_stores()
 
 
@@ -88,14 +105,24 @@ def config(tier):
 
 
 def generate(rng, tier):
+    plain = rng.random() < 0.7
+    # Guards: feature classes that run into divergences already reported for the code under
+    # test (see GUARDED).  A guarded run stays out of them so that the rest of the space is
+    # explored; each guard is lifted in a fraction of the runs, which then reproduce the
+    # finding under its own signature.
+    lifted = sorted(g for g in GUARDED if rng.random() < 0.07)
     opts = {
         "odd_names": rng.random() < 0.3,
         "binary": rng.random() < 0.8,
         "retype": rng.random() < 0.7,
-        "swap": rng.random() < 0.7,
+        "swap": "swap" in lifted,
+        "retype_to_dir": (not plain) or "plain_retype_to_dir" in lifted,
+        "rename_full_dirs": "rename_full_dir" in lifted,
         "props": rng.random() < 0.3,
         "authors": rng.random() < 0.3,
     }
+    force = json.loads(os.environ.get("C44_FORCE", "{}"))  # triage aid; empty in normal runs
+    opts.update(force.get("opts", {}))
     n = rng.choice([2, 3, 4, 5, 6, 8, 10]) if tier != "thorough" else rng.choice([2, 4, 6, 9, 12, 16])
     mh, specs = histsim.gen_history(rng, n, opts)
     tip = f"m-{n}"
@@ -108,7 +135,8 @@ def generate(rng, tier):
         if outside:
             tags["unmerged"] = rng.choice(outside)
     cfg = {
-        "plain": rng.random() < 0.6,
+        "plain": plain,
+        "lifted": lifted,
         "rewrite_tags": rng.random() < 0.5,
         "no_tags": rng.random() < 0.15,
         "baseline": None,
@@ -130,6 +158,7 @@ def generate(rng, tier):
                 cands.append(start)
         if cands:
             cfg["baseline"] = rng.choice(cands)
+    cfg.update(force.get("cfg", {}))
     return {"specs": specs, "tip": tip, "tags": tags, "cfg": cfg}
 
 
@@ -173,10 +202,17 @@ class _Ids:
 
 
 def norm_exc(e):
-    s = f"{type(e).__name__}:{e}"
+    """Exception class + message without paths, ids and quoted operands (stable)."""
+    msg = str(e)
+    if "invalid property name" in msg:
+        return f"{type(e).__name__}:{msg}"[:90]
+    lines = [ln.strip() for ln in msg.split("\n") if ln.strip()]
+    head = lines[0] if lines else ""
+    reason = next((ln for ln in lines[1:] if ln.startswith("reason")), "")
+    s = f"{type(e).__name__}:{head} {reason}".strip()
     s = re.sub(r"/dev/shm/\S+", "<path>", s)
-    s = re.sub(r"[0-9]{4,}", "N", s)
-    s = re.sub(r"\b[a-z0-9]{16}\b", "<r>", s)
+    s = re.sub(r"b?'[^']*'|b?\"[^\"]*\"", "<q>", s)
+    s = re.sub(r"[0-9]{2,}", "N", s)
     return s[:90]
 
 
@@ -234,6 +270,9 @@ def execute(sim, plan):
 
         sim.fail("export_aborts", ["export_aborts", mode, norm_exc(e)], f"fast-export failed: {type(e).__name__}: {e}\n{traceback.format_exc()[-1500:]}")
     data = out.getvalue()
+    if os.environ.get("C44_DUMP"):  # triage aid
+        with open(os.environ["C44_DUMP"], "wb") as f:
+            f.write(data)
     sim.event("exported", mode, len(ex.revid_to_mark), hashlib.sha1(data).hexdigest()[:16], vol=len(data))
     if cfg["baseline"]:
         exported = {cfg["baseline"]} | (mh.ancestry(tip) - mh.ancestry(cfg["baseline"]))
@@ -257,7 +296,9 @@ def execute(sim, plan):
     os.makedirs(tgt_path)
     url = "sim+file://" + tgt_path
     fmt = controldir.format_registry.make_controldir("2a")
-    controldir.ControlDir.create_branch_convenience(url, format=fmt, force_new_tree=bool(cfg["with_tree"]))
+    # created through the plain path (create_branch_convenience insists on a local URL for a
+    # tree); everything afterwards opens it through the seam
+    controldir.ControlDir.create_branch_convenience(tgt_path, format=fmt, force_new_tree=bool(cfg["with_tree"]))
     real_ids = bzr_commit_handler.generate_ids
     if not isinstance(real_ids, _Ids):
         bzr_commit_handler.generate_ids = _Ids(real_ids)
@@ -275,7 +316,15 @@ def execute(sim, plan):
     except Exception as e:  # noqa: BLE001
         import traceback
 
-        sim.fail("import_aborts", ["import_aborts", mode, norm_exc(e)], f"fast-import of the exported stream failed: {type(e).__name__}: {e}\n{traceback.format_exc()[-1800:]}")
+        where = ""
+        m_ = re.search(r"processing commit b?'?:?(\d+)", sink.getvalue())
+        if m_:
+            mk = m_.group(1).encode()
+            rid = next((r for r, m in marks.items() if m == mk), None)
+            where = f"\nfailing commit: mark {mk} = revision {rid}, actions {_short_actions(mh.revs[rid]['actions']) if rid else None}, parents {mh.revs[rid]['parents'] if rid else None}\nstream of that commit: {_commit_cmds(data, mk)}"
+            risky = "-" if "invalid property name" in str(e) else (_risky(mh, rid) if rid else "?")
+            sim.fail("import_aborts", ["import_aborts", mode, norm_exc(e), risky], f"fast-import of the exported stream failed: {type(e).__name__}: {e}{where}\n{traceback.format_exc()[-1500:]}")
+        sim.fail("import_aborts", ["import_aborts", mode, norm_exc(e), "?"], f"fast-import of the exported stream failed: {type(e).__name__}: {e}\n{traceback.format_exc()[-1800:]}")
 
     # -- compare ----------------------------------------------------------------------
     storesim.clear_caches()
@@ -291,13 +340,12 @@ def execute(sim, plan):
         if m not in idmap:
             sim.fail("revision_missing", ["revision_missing", mode], f"exported revision {r} (mark {m}) has no imported counterpart; id map {sorted(idmap)}")
         new_of[r] = idmap[m]
-    exact_dirs = (not cfg["plain"]) and (not cfg["prune"])
     feats = set()
     with trepo.lock_read(), sb.repository.lock_read():
         have = set(trepo.all_revision_ids())
         if len(have) != len(exported) or have != set(new_of.values()):
             sim.fail("revision_count", ["revision_count", mode], f"target lists {len(have)} revisions, {len(exported)} were exported")
-        for r in sorted(exported):
+        for r in [x for x in mh.order if x in exported]:
             srev = sb.repository.get_revision(r.encode())
             trev = trepo.get_revision(new_of[r])
             want_parents = [new_of[p.decode()] for p in srev.parent_ids if p.decode() in exported and not (cfg["baseline"] == r)]
@@ -309,11 +357,10 @@ def execute(sim, plan):
                     sim.fail(field, [field, mode, _field_class(field, a, b_)], f"revision {r}: {field} {a!r} became {b_!r}")
             st = histsim.strip_ids(histsim.tree_state(sb.repository.revision_tree(r.encode())))
             tt = histsim.strip_ids(histsim.tree_state(trepo.revision_tree(new_of[r])))
-            if not exact_dirs:
-                st, tt = histsim.prune_empty_dirs(st), histsim.prune_empty_dirs(tt)
+            st, tt = histsim.prune_empty_dirs(st), histsim.prune_empty_dirs(tt)
             if st != tt:
                 d = histsim.diff_trees(tt, st)
-                sim.fail("tree", ["tree", mode, _tree_class(tt, st), _action_class(mh, r)], f"revision {r} (actions {_short_actions(mh.revs[r]['actions'])}; parents {mh.revs[r]['parents']}): imported tree differs: {d}")
+                sim.fail("tree", ["tree", mode, _culprit(mh, r, tt, st)], f"revision {r} [{_tree_class(tt, st)}] (actions {_short_actions(mh.revs[r]['actions'])}; parents {mh.revs[r]['parents']}): imported tree differs: {d}\nstream of that commit: {_commit_cmds(data, marks[r])}")
             for a in mh.revs[r]["actions"]:
                 feats.add(a[0] if a[0] != "add" else "add-" + a[3])
             if len(srev.parent_ids) > 1:
@@ -362,6 +409,30 @@ def execute(sim, plan):
     sim.state_seen((mode, cfg["prune"], bool(cfg["baseline"]), cfg["no_tags"], sorted(feats), len(exported) > 4))
 
 
+def _commit_cmds(data, mark):
+    """The command lines (without blob data) of the commit carrying `mark`."""
+    i = data.find(b"\nmark :" + mark + b"\n")
+    if i < 0:
+        return "?"
+    j = data.find(b"\ncommit refs/", i)
+    chunk = data[i + 1 : j if j > 0 else len(data)]
+    out = []
+    pos = 0
+    while pos < len(chunk):
+        e = chunk.find(b"\n", pos)
+        if e < 0:
+            e = len(chunk)
+        ln = chunk[pos:e]
+        pos = e + 1
+        m = re.match(rb"data (\d+)$", ln)
+        if m:
+            pos += int(m.group(1))
+            continue
+        if re.match(rb"(M [0-7]+ |D |R |C |from |merge |mark |deleteall|reset )", ln):
+            out.append(ln.decode("utf-8", "replace")[:80])
+    return out[:40]
+
+
 def _field_class(field, a, b_):
     if field == "message":
         if a.strip() == b_.strip():
@@ -388,6 +459,50 @@ def _tree_class(got, want):
             return "exec"
         return f"content-{w[1]}"
     return "?"
+
+
+def _culprit(mh, r, got, want):
+    """Which kinds of action of revision r touched the paths that differ (stable label)."""
+    bad = [p for p in sorted(set(got) | set(want)) if got.get(p) != want.get(p)]
+    base = mh.tree(mh.revs[r]["parents"][0]) if mh.revs[r]["parents"] else {}
+    labels = set()
+    tree = base
+    for a in mh.revs[r]["actions"]:
+        involved = [a[1]] + ([a[2]] if a[0] in ("rename", "swap") else [])
+        if any(histsim.inside(q, p) or histsim.inside(p, q) for q in involved for p in bad if q != ""):
+            if a[0] == "retype":
+                labels.add("retype-" + a[2])
+            elif a[0] == "rename":
+                full = any(x != a[1] and histsim.inside(a[1], x) for x in tree)
+                labels.add("rename-" + ("full-dir" if full else tree[a[1]][1]))
+            elif a[0] == "swap":
+                labels.add("swap")
+            elif a[0] == "add":
+                labels.add("add-" + a[3])
+            else:
+                labels.add(a[0])
+        tree = histsim.apply_actions(tree, [a])
+    if not labels and len(mh.revs[r]["parents"]) > 1:
+        labels.add("merge")
+    for top in ("swap", "retype-directory", "rename-full-dir"):
+        if top in labels:
+            return top
+    return "+".join(sorted(labels)) or "untouched-path"
+
+
+def _risky(mh, r):
+    """Guarded feature classes present in revision r (for signatures of aborted imports)."""
+    labels = set()
+    tree = mh.tree(mh.revs[r]["parents"][0]) if mh.revs[r]["parents"] else {}
+    for a in mh.revs[r]["actions"]:
+        if a[0] == "swap":
+            labels.add("swap")
+        elif a[0] == "retype" and a[2] == DIR:
+            labels.add("retype-directory")
+        elif a[0] == "rename" and any(x != a[1] and histsim.inside(a[1], x) for x in tree):
+            labels.add("rename-full-dir")
+        tree = histsim.apply_actions(tree, [a])
+    return "+".join(sorted(labels)) or "-"
 
 
 def _action_class(mh, r):
